@@ -320,7 +320,7 @@ func c18c(tp *tape.Tape) core.Result {
 	}
 	var stmts []string // top-level statements after the definitions; the last one's value is checked
 	var want string
-	tpl := tp.Draw(12)
+	tpl := tp.Draw(14)
 	key = key.Int(tpl).Int(w)
 	switch tpl {
 	case 0: // a generator yields a closure over its local; the consumer returns it out of the loop
@@ -366,10 +366,29 @@ func c18c(tp *tape.Tape) core.Result {
 		// what the call needs: nothing is reallocated, so the closure must see the update (finding K3 is about the
 		// reallocating case only, which this program avoids by construction)
 		d := []int{100, 200, 400}[tp.Draw(3)]
+		first := 4000 + tp.Draw(3000)
+		if tp.Bool() { // an order of magnitude larger: the stack was once several times what the later call needs
+			d = 5000 + tp.Draw(2000)
+			first = 16000 + tp.Draw(8000)
+			s.Budget = 60_000_000
+		}
 		defs = append(defs, fmt.Sprintf("upd = (v) -> {\n%sx = v\ng = () -> x\nra = deep(%d)\nx = v + 1\ng()\n}", pad(w), d))
-		stmts = []string{fmt.Sprintf("deep(%d)", 4000+tp.Draw(3000)), fmt.Sprintf("[upd(%d), upd(%d)]", k, k+10), "{\n" + drawMid() + fmt.Sprintf("\n[upd(%d), upd(%d)]\n}", k, k+10)}
+		stmts = []string{fmt.Sprintf("deep(%d)", first), fmt.Sprintf("[upd(%d), upd(%d)]", k, k+10), "{\n" + drawMid() + fmt.Sprintf("\n[upd(%d), upd(%d)]\n}", k, k+10)}
 		want = fmt.Sprintf("[%d, %d]", k+1, k+11)
 		r.Inc("C.captured_variable_updated_on_a_stack_already_grown", 1)
+	case 12: // the Readme's shadowing example: `a = a + k` inside a function reads the global (or captured) a and writes a local
+		defs = append(defs, "gsh = 13", "shf = (n) -> {\n"+pad(w)+"gsh = gsh + 1\n}", "shg = (n) -> {\ngsh = 2 + gsh\ngsh = gsh - 1\ngsh * n\n}",
+			"shm = (c) -> () -> {\nc = c + 2\nc\n}")
+		stmts = []string{"shf(1)", fmt.Sprintf("shh = shm(%d)", k), "{\n" + drawMid() + "\n[shf(1), gsh, shg(2), shh(), shh(), gsh]\n}"}
+		want = fmt.Sprintf("[14, 13, 28, %d, %d, 13]", k+2, k+2)
+		r.Inc("C.shadowing_increment", 1)
+	case 13: // functions defined in this activation travel down inside an array, in a call that is the activation's last action
+		defs = append(defs, "hap = (hs, v) -> {\nf = hs[0]\ng = hs[1]\n[f(v), g(v), #hs]\n}",
+			"hrun = (k) -> {\n"+pad(w)+"x = k\nhs = [(y) -> x + y, (y) -> x * y, 5]\nhap(hs, 7)\n}",
+			"hrec = (k, d) -> if d <= 0 {\nhrun(k)\n} else {\nhrec(k, d - 1)\n}")
+		stmts = []string{fmt.Sprintf("hrun(%d)", k), "{\n" + drawMid() + fmt.Sprintf("\nhrec(%d, %d)\n}", k, tp.Draw(6))}
+		want = fmt.Sprintf("[%d, %d, 3]", k+7, k*7)
+		r.Inc("C.functions_inside_an_array_argument_of_a_tail_call", 1)
 	case 10: // the same function, so the same frame shape at the same place, with other arguments after the stack was reallocated
 		defs = append(defs, "shp = (v) -> {\n"+pad(w)+"x = v * 2\nh = (y) -> x + y\nh(1)\n}")
 		d := []int{150, 300, 1200, 3000}[tp.Draw(4)]
